@@ -653,7 +653,92 @@ func TestC15Mirror(t *testing.T) {
 			r.Sample(strings.Join(s, " "))
 		}
 	}
+	for i := 0; i < pick(16, 300); i++ {
+		hr := rng.Fork(fmt.Sprint("overlap", i))
+		if !mine(i) {
+			continue
+		}
+		runC15Overlap(r, hr, i)
+	}
 	if r.Counter("mirror_commits_audited") == 0 {
 		r.Inconcl("no mirror checkpoint was ever recorded")
 	}
+}
+
+// runC15Overlap: two witness+mirror processes with the same keys on the same
+// stores (an overlapping restart). Process one is held between the packages
+// and the commit of an upload (existing before-commit hook) while process two
+// cosigns a larger checkpoint and mirrors up to it; then process one's commit
+// goes on with its stale idea of the mirror checkpoint. The monitor on the
+// mirror-checkpoint key must never see the size go back or an unservable tree.
+func runC15Overlap(r *Run, rng *Rng, hn int) {
+	e := NewWitEnv(r, rng.Fork("env"), true)
+	defer e.Cleanup()
+	if err := e.Start(); err != nil {
+		panic(err)
+	}
+	logLen := 1400
+	l := newWitLog(rng.Fork("log"), fmt.Sprintf("verif.example/log-c15o-%d", hn), logLen, []int{3}, 10)
+	if err := e.AddLogs(true, l); err != nil {
+		panic(err)
+	}
+	cr := &c15Run{r: r, e: e, l: l, rng: rng, tickets: map[int][]byte{}}
+	e.OnMirrorCommit = cr.onMirrorCommit
+	p1 := 100 + rng.Intn(600)
+	p2 := p1 + 1 + rng.Intn(300)
+	p3 := p2 + 1 + rng.Intn(300)
+	e.CaseInfo = func() any {
+		return map[string]any{"workload": "overlapping-mirror-instances", "sizes": []int{p1, p2, p3}, "last_requests": cr.trace}
+	}
+	r.Eval(1)
+	w1 := e.Wit
+	cr.addCheckpoint(p1)
+	cr.wellBehavedClient("overlap-setup")
+	if _, m := cr.state(); m != int64(p1) {
+		return // setup did not reach the mirror checkpoint (reported by the client check)
+	}
+	cr.addCheckpoint(p2)
+	var w2 *witness.Witness
+	fired := false
+	variant := pickOne(rng, []string{"two-mirrors-further", "two-mirrors-same", "two-only-checkpoints"})
+	witness.VerifSetBeforeAddEntriesCommit(func() {
+		if fired {
+			return
+		}
+		fired = true
+		var err error
+		w2, _, err = e.StartOverlapping("witness-two", true)
+		if err != nil {
+			e.violate("witness-restart-failed", "second NewWitness on the same stores failed: %v", err)
+			return
+		}
+		e.Wit = w2
+		defer func() { e.Wit = w1 }()
+		cr.note("-- process two takes over inside process one's commit (%s)", variant)
+		switch variant {
+		case "two-mirrors-further":
+			cr.addCheckpoint(p3)
+			cr.wellBehavedClient("after-restart")
+		case "two-mirrors-same":
+			cr.wellBehavedClient("after-restart")
+		case "two-only-checkpoints":
+			cr.addCheckpoint(p3)
+		}
+		cr.note("-- back to process one")
+	})
+	code, _ := cr.postEntries(cr.entriesBody(int64(p1), int64(p2), nil, "ok", int64(p2)), false, int64(p2), "stale-process-commit")
+	witness.VerifSetBeforeAddEntriesCommit(nil)
+	r.DistinctKey(fmt.Sprintf("overlap/%s/%d", variant, code))
+	r.Count("overlap_cases", 1)
+	// Neither of the two overlapping processes is required to make progress on
+	// what the other one recorded (each holds stale cached state and a failed
+	// compare-and-swap is the designed outcome). After a real restart (one fresh
+	// process) uploads must resume from the mirror checkpoint.
+	_ = w2
+	if err := e.Start(); err != nil {
+		e.violate("witness-restart-failed", "NewWitness after the overlap failed: %v", err)
+		return
+	}
+	cr.wellBehavedClient("after-restart")
+	r.Count("mirror_commits", int64(cr.mcommits))
 }
